@@ -44,7 +44,7 @@ func (e *Enc) background(n int) string { return e.backgroundD(n, true) }
 
 func (e *Enc) backgroundD(n int, defsOn bool) string { return e.backgroundO(n, defsOn, nil) }
 
-var nameTokRe = regexp.MustCompile(`[a-z]+_[0-9]+`)
+var nameTokRe = regexp.MustCompile(`[A-Za-z_][A-Za-z0-9_!.$]*`)
 
 // selectAsserts: the assertions an obligation is posed against. Dropping an assumption is always sound; two kinds are
 // dropped to keep the queries small: (1) facts produced while encoding a block that cannot precede the obligation's
@@ -101,10 +101,24 @@ func (e *Enc) selectAsserts(n int, o *Obligation) []string {
 		}
 	}
 	var out []string
+	cnt := map[string]int{}
+	dup := map[string]bool{}
 	for i := 0; i < n; i++ {
 		if keep[i] {
+			if dup[e.asserts[i]] {
+				continue
+			}
+			dup[e.asserts[i]] = true
 			out = append(out, e.asserts[i])
+			if e.assertBlk[i] == nil {
+				cnt["nil"]++
+			} else {
+				cnt[fmt.Sprintf("b%d", e.assertBlk[i].Index)]++
+			}
 		}
+	}
+	if os.Getenv("GOBTVC_DEBUG_SLICE") != "" && strings.Contains(o.Name, os.Getenv("GOBTVC_DEBUG_SLICE")) {
+		fmt.Fprintf(os.Stderr, "slice %s (block b%d): %v\n", o.Name, o.Blk.Index, cnt)
 	}
 	return out
 }
@@ -112,7 +126,7 @@ func (e *Enc) selectAsserts(n int, o *Obligation) []string {
 func (e *Enc) backgroundO(n int, defsOn bool, o *Obligation) string {
 	var b strings.Builder
 	var facts []string
-	if !e.noFacts {
+	if !e.noFacts && (e.token || e.ct != nil && (e.ct.Opts["bytes-axioms"] != "" || e.ct.Opts["bytes-bound"] != "")) {
 		facts = e.factsFor() // before the declarations are written: evaluating a fact may declare a function
 	}
 	b.WriteString(preludeSMT)
@@ -121,6 +135,9 @@ func (e *Enc) backgroundO(n int, defsOn bool, o *Obligation) string {
 	}
 	if e.needB {
 		b.WriteString(bytesPrelude)
+		if e.token || e.noFacts || e.ct != nil && (e.ct.Opts["bytes-axioms"] != "" || e.ct.Opts["bytes-bound"] != "") {
+			b.WriteString(bytesAxioms)
+		}
 		if e.noFacts || e.ct != nil && e.ct.Opts["bytes-le-defs"] != "" {
 			b.WriteString(bytesLEDefs)
 		}
@@ -220,7 +237,7 @@ var budgetOverride = 0
 var solverHints map[string]string
 
 func solveAll(outDir string, bg string, obls []*Obligation, tier string, workers int, seed int) []*Result {
-	budget := 10
+	budget := 20
 	if tier == "thorough" {
 		budget = 60
 	}
@@ -365,7 +382,7 @@ func truncate(s string, n int) string {
 }
 
 func solveAllEnc(outDir string, e *Enc, obls []*Obligation, tier string, workers int, seed int) []*Result {
-	budget := 10
+	budget := 20
 	if tier == "thorough" {
 		budget = 60
 	}
